@@ -1,6 +1,10 @@
 package main
 
 import (
+	"verif.local/mc/harness/c03"
+	"verif.local/mc/harness/c06"
+	"verif.local/mc/harness/c20"
+	"verif.local/mc/harness/c05"
 	"verif.local/mc/harness/c12"
 	"verif.local/mc/harness/c10"
 	"verif.local/mc/harness/c07"
@@ -12,6 +16,10 @@ import (
 )
 
 func init() {
+	register("C03", "exploration", c03.Run)
+	register("C06", "exploration", c06.Run)
+	register("C20", "exploration", c20.Run)
+	register("C05", "exploration", c05.Run)
 	register("C12", "model_checking", c12.Run)
 	register("C10", "exploration", c10.Run)
 	register("C09", "exploration", c09.Run)
